@@ -1,6 +1,6 @@
 (* C18 — Timeouts and cancellation are bounded and leave no residue.
    Only statements; each closed by `exact` of a lemma proved in Proofs/Timeouts*.v. *)
-From AV Require Import Lib.Base Generated.TimeoutsGen Generated.PoolGen Model.Timeouts Proofs.TimeoutsArith.
+From AV Require Import Lib.Base Generated.TimeoutsGen Model.Timeouts Proofs.TimeoutsArith.
 Open Scope Z_scope.
 
 (* ---- the documented rounding ---------------------------------------------------------------- *)
